@@ -606,7 +606,7 @@ def run_history(ctx, rounds, dim, deadline, state_budget=60, cancel=False):
 
                 def viol(clause):
                     res["violations"].append({"shape": f"round {rno + 1}", "clause": clause, "pre": None,
-                                              "values": {"rounds": rounds[:rno + 1], "dim": dim}})
+                                              "values": {"rounds": rounds[:rno + 1], "dim": dim, "cancel": cancel}})
                 if f.status in ("unknown", "unwind"):
                     res["unknown"].append(f"{label}: {f.status}: {f.info}")
                     continue
@@ -696,8 +696,10 @@ def history_scenario(v):
     side decisions are whatever the real metric computes, so several seeds are tried."""
     vals = v["values"]
     out = []
-    for seed in range(6):
-        out.append(f"=== seed {seed}")
+    cancel = vals.get("cancel")
+    variants = [(seed, None) for seed in range(6)] if not cancel else [(0, n) for n in range(1, 120)]
+    for seed, cancel_from in variants:
+        out.append(f"=== seed {seed} cancel_from {cancel_from}")
         out.append(f"dim {vals.get('dim', 2)}")
         for rd in vals["rounds"]:
             for i in rd.get("adds", []):
@@ -706,7 +708,9 @@ def history_scenario(v):
                 out.append(f"del {i}")
             nt = rd.get("n_trees")
             sa = rd.get("split_after")
-            out.append(f"build n_trees={nt if nt is not None else 'auto'} split_after={sa if sa is not None else 'none'} seed={seed}")
+            last = rd is vals["rounds"][-1]
+            out.append(f"build n_trees={nt if nt is not None else 'auto'} split_after={sa if sa is not None else 'none'} seed={seed}"
+                       + (f" cancel_from={cancel_from}" if (cancel_from is not None and last) else ""))
             out.append("expect_valid")
             if sa is not None:
                 out.append(f"expect_buckets_within {sa}")
